@@ -460,11 +460,18 @@ func (r *Run) CheckUP4Image(prop, ctx, cause string, o UP4Opts) {
 		r.Soft()
 		r.Violate(prop, "meters:stale-cells-after-agent-restart", "%s: %d application / session meter cells are configured for %d live QERs; the agent was restarted earlier in this run and does not reset meter cells at start-up", ctx, cells, nQER)
 	} else {
-		if nQER == 0 && cells > 0 {
-			bad(0, "meters", "configured-cells-without-live-qer", "%d application / session meter cells are configured while no QER of a live session exists", cells)
-		}
-		if cells > 2*nQER {
-			bad(0, "meters", "more-cells-than-qers-need", "%d meter cells configured for %d live QERs (at most two per QER)", cells, nQER)
+		if r.refusedEst && (nQER == 0 && cells > 0 || cells > 2*nQER) {
+			// an establishment was refused half-way earlier in this run: the meter
+			// cells it had configured by then are that finding's leftovers, whatever
+			// other trigger the run met first
+			r.Violate(prop, imgSig("meters", "cells-left", "after:up4-refused-establishment"), "%s: %d application / session meter cells are configured for %d live QERs after an establishment was refused half-way", ctx, cells, nQER)
+		} else {
+			if nQER == 0 && cells > 0 {
+				bad(0, "meters", "configured-cells-without-live-qer", "%d application / session meter cells are configured while no QER of a live session exists", cells)
+			}
+			if cells > 2*nQER {
+				bad(0, "meters", "more-cells-than-qers-need", "%d meter cells configured for %d live QERs (at most two per QER)", cells, nQER)
+			}
 		}
 	}
 	r.noteP4State()
